@@ -1,14 +1,14 @@
 (* Proofs about Model/Eltorito.v, part 3: EltoritoBootInfoTable record/parse and
-   PyCdlib._calculate_eltorito_boot_info_table_csum.
+   PyCdlib._calculate_eltorito_boot_info_table_csum (as of commit ec27ab7: a block is read with
+   min(2048, data_len - curr_sector*2048), so nothing beyond data_len is read).
 
    Main results
      bit_roundtrip            parse (record t) = t, |record t| = 56 (16 + 40 reserved), mismatch -> False
-     bit_csum_spec            csum = sum of the LE 32-bit words, from offset 64, of the
-                              ceiling_div(data_len, 2048) sectors READ FROM data_fp, each completed with
-                              zeros to 2048 bytes  (mod 2^32); never a struct.error
-     bit_csum_exact           when data_fp holds exactly data_len bytes: the sum of the LE words of
-                              fp[64:], the last 1..3 bytes completed with zeros
-     bit_csum_overread_refuted   the result is NOT a function of the first data_len bytes *)
+     bit_csum_exact_prefix    for EVERY fp and data_len: no exception, and the value is the sum mod
+                              2^32 of the little-endian 32-bit words of fp[:data_len][64:], the last
+                              1..3 bytes completed with zeros
+     bit_csum_exact           the case data_len = len(fp)
+     bit_csum_prefix_only     bytes beyond data_len do not matter *)
 From Coq Require Import ZArith List Bool Lia ZifyBool.
 From PV.Base Require Import Prim ListX.
 From PV.Gen Require Import GenConst GenFun.
@@ -133,36 +133,6 @@ Proof.
   - exact Hc.
 Qed.
 
-Lemma sector_loop_spec : forall n fp (first : bool) c, 0 <= c < M32 ->
-  bit_sector_loop n first fp c =
-  Some ((c + wsum 0 (skipn (if first then 64 else 0) (padded_sectors n fp))) mod M32).
-Proof.
-  induction n as [|n IH]; intros fp first c Hc.
-  - cbn [bit_sector_loop padded_sectors]. destruct first; cbn [skipn wsum]; f_equal; unfold M32 in *; lia.
-  - cbn [bit_sector_loop padded_sectors].
-    set (block := firstn 2048 fp ++ repeat 0 (2048 - length (firstn 2048 fp))).
-    assert (Hl : length block = 2048%nat) by apply block_length.
-    set (i := if first then 64%nat else 0%nat).
-    replace (if first then 64 else 0) with (Z.of_nat i) by (destruct first; reflexivity).
-    assert (Hi : (i = 0 \/ i = 64)%nat) by (destruct first; auto).
-    rewrite (block_sum block i c Hl Hi Hc).
-    rewrite IH by (unfold M32; lia). cbn [skipn]. f_equal.
-    rewrite skipn_app, Hl. replace (i - 2048)%nat with 0%nat by lia. cbn [skipn].
-    rewrite (wsum_app4 _ ((2048 - i) / 4)%nat).
-    + unfold M32. lia.
-    + rewrite skipn_length, Hl. destruct Hi as [Hi|Hi]; rewrite Hi; reflexivity.
-Qed.
-
-(* Theorem 4 (general form): no exception; the value is the sum mod 2^32 of the little-endian
-   32-bit words, from offset 64, of what was READ: ceiling_div(data_len, 2048) reads of 2048 bytes
-   from data_fp, each completed with zeros to 2048 bytes. *)
-Theorem bit_csum_spec fp data_len :
-  bit_csum fp data_len =
-  Some (zsum32 (skipn 64 (padded_sectors (Z.to_nat (ceiling_div data_len 2048)) fp)) mod M32).
-Proof.
-  unfold bit_csum. rewrite sector_loop_spec by (unfold M32; lia). rewrite zsum32_wsum. reflexivity.
-Qed.
-
 Lemma repeat_app0 a b : repeat 0 a ++ repeat 0 b = repeat 0 (a + b).
 Proof. induction a as [|a IH]; cbn [repeat app plus]; [reflexivity|rewrite IH; reflexivity]. Qed.
 Lemma skipn_repeat0 j k : skipn j (repeat 0 k) = repeat 0 (k - j).
@@ -170,66 +140,85 @@ Proof.
   revert k; induction j as [|j IH]; intros k; [rewrite Nat.sub_0_r; reflexivity|].
   destruct k as [|k]; [reflexivity|]. cbn [repeat skipn Nat.sub]. apply IH.
 Qed.
-
-Lemma padded_exact : forall n fp, (length fp <= 2048 * n)%nat ->
-  padded_sectors n fp = fp ++ repeat 0 (2048 * n - length fp).
+Lemma firstn_add {A} (a b : nat) (l : list A) : firstn (a + b) l = firstn a l ++ firstn b (skipn a l).
 Proof.
-  induction n as [|n IH]; intros fp Hl.
-  - destruct fp; [reflexivity|cbn [length] in Hl; lia].
-  - cbn [padded_sectors]. destruct (Nat.le_gt_cases (length fp) 2048) as [Hs|Hg].
-    + rewrite firstn_all2, skipn_all2 by lia. rewrite (IH []) by (cbn [length]; lia).
-      cbn [app length]. rewrite <- app_assoc, repeat_app0. f_equal. f_equal. lia.
-    + assert (Hf : length (firstn 2048 fp) = 2048%nat) by (rewrite firstn_length; lia).
-      rewrite Hf. cbn [Nat.sub repeat]. rewrite app_nil_r.
-      rewrite IH by (rewrite skipn_length; lia). rewrite app_assoc, firstn_skipn, skipn_length.
-      f_equal. f_equal. lia.
+  revert l; induction a as [|a IH]; intros l; [reflexivity|].
+  destruct l as [|x l]; [cbn; rewrite firstn_nil; reflexivity|]. cbn [plus firstn skipn app]. rewrite IH. reflexivity.
 Qed.
 
-(* Theorem 4 (the intended case): data_fp delivers exactly data_len bytes.  The checksum is the sum
-   mod 2^32 of the little-endian 32-bit words of the file from offset 64; when the length is not a
-   multiple of 4 the last word is completed with zero bytes (nothing is read past the end). *)
-Theorem bit_csum_exact fp :
-  bit_csum fp (zlen fp) = Some (zsum32 (skipn 64 fp) mod M32).
+(* one sector: A = what was read (at most 2048 bytes), B = the rest of the file; either the sector
+   is full or nothing follows it *)
+Lemma sector_sum_step (i : nat) (A B : list Z) :
+  (i = 0 \/ i = 64)%nat -> (length A <= 2048)%nat -> (length A = 2048%nat \/ B = []) ->
+  wsum 0 (skipn i (A ++ B)) = wsum 0 (skipn i (A ++ repeat 0 (2048 - length A))) + wsum 0 B.
 Proof.
-  rewrite bit_csum_spec, !zsum32_wsum. rewrite ceiling_div_spec by lia.
-  rewrite padded_exact by (unfold zlen; lia).
-  rewrite skipn_app, skipn_repeat0, wsum_pad. reflexivity.
-Qed.
-Corollary bit_csum_exact_words fp : (64 <= length fp)%nat -> (length fp mod 4 = 0)%nat ->
-  exists c, bit_csum fp (zlen fp) = Some c /\ 0 <= c < M32 /\
-            c = fold_right Z.add 0 (words32 (skipn 64 fp)) mod M32.
-Proof.
-  intros _ _. eexists. split; [apply bit_csum_exact|]. split; [unfold M32; lia|reflexivity].
+  intros Hi Hle [Hfull|Hnil].
+  - rewrite Hfull. cbn [Nat.sub repeat]. rewrite app_nil_r, skipn_app, Hfull.
+    replace (i - 2048)%nat with 0%nat by lia. cbn [skipn].
+    apply (wsum_app4 B ((2048 - i) / 4)%nat). rewrite skipn_length, Hfull.
+    destruct Hi as [Hi|Hi]; rewrite Hi; reflexivity.
+  - subst B. rewrite app_nil_r. cbn [wsum]. rewrite skipn_app, skipn_repeat0, wsum_pad. lia.
 Qed.
 
-(* the checksum is not determined by the data_len bytes that make up the file: bytes that data_fp
-   delivers beyond data_len (a user fp longer than the length given to add_fp; on the parse side the
-   rest of the last sector of a foreign image) are summed too.  Reproduced on the library:
-   add_fp(BytesIO(body + b'\xff'*100), len(body), ...); add_eltorito(boot_info_table=True) stores a
-   checksum that does not match the image it writes, and open() then drops the table. *)
-Theorem bit_csum_overread_refuted :
-  exists fp data_len, 0 <= data_len <= zlen fp /\
-    bit_csum fp data_len <> bit_csum (firstn (Z.to_nat data_len) fp) data_len.
+(* the outer loop, in terms of what remains of the file: R = data_len - curr_sector * 2048 *)
+Lemma sector_loop_spec data_len : forall n cs fp c,
+  0 <= cs -> n = Z.to_nat (ceiling_div (data_len - cs * 2048) 2048) -> 0 <= c < M32 ->
+  bit_sector_loop n data_len cs fp c =
+  Some ((c + wsum 0 (skipn (if cs =? 0 then 64 else 0)
+                           (firstn (Z.to_nat (data_len - cs * 2048)) fp))) mod M32).
 Proof.
-  exists (repeat 0 64 ++ [1; 255]), 65. split; [vm_compute; split; discriminate|].
-  vm_compute. discriminate.
+  induction n as [|n IH]; intros cs fp c Hcs Hn Hc; rewrite ceiling_div_spec in Hn by lia.
+  - cbn [bit_sector_loop]. replace (Z.to_nat (data_len - cs * 2048)) with 0%nat by lia.
+    cbn [firstn]. destruct (cs =? 0); cbn [skipn wsum]; f_equal; unfold M32 in *; lia.
+  - cbn [bit_sector_loop]. set (R := data_len - cs * 2048) in *.
+    assert (HR : 0 < R) by lia.
+    replace (Z.min 2048 R <? 0) with false by lia.
+    set (got := Z.to_nat (Z.min 2048 R)).
+    set (A := firstn got fp).
+    set (i := if cs =? 0 then 64%nat else 0%nat).
+    replace (if cs =? 0 then 64 else 0) with (Z.of_nat i) by (unfold i; destruct (cs =? 0); reflexivity).
+    assert (Hi : (i = 0 \/ i = 64)%nat) by (unfold i; destruct (cs =? 0); auto).
+    assert (HA : (length A <= 2048)%nat) by (unfold A; rewrite firstn_length; lia).
+    assert (Hl : length (A ++ repeat 0 (2048 - length A)) = 2048%nat)
+      by (rewrite app_length, repeat_length; lia).
+    rewrite (block_sum _ i c Hl Hi Hc).
+    rewrite (IH (cs + 1) (skipn got fp)); [| lia | rewrite ceiling_div_spec by lia; lia | unfold M32; lia].
+    replace (cs + 1 =? 0) with false by lia. cbn [skipn]. f_equal.
+    replace (data_len - (cs + 1) * 2048) with (R - 2048) by lia.
+    set (B := firstn (Z.to_nat (R - 2048)) (skipn got fp)).
+    assert (HAB : firstn (Z.to_nat R) fp = A ++ B).
+    { replace (Z.to_nat R) with (got + Z.to_nat (R - 2048))%nat by lia. apply firstn_add. }
+    rewrite HAB. replace (Z.to_nat (Z.of_nat i)) with i by lia.
+    rewrite (sector_sum_step i A B Hi HA).
+    + unfold M32. lia.
+    + destruct (Z_le_gt_dec R 2048) as [Hs|Hg].
+      * right. unfold B. replace (Z.to_nat (R - 2048)) with 0%nat by lia. reflexivity.
+      * destruct (Nat.le_gt_cases 2048 (length fp)) as [Hf|Hf].
+        -- left. unfold A. rewrite firstn_length. lia.
+        -- right. unfold B. rewrite skipn_all2 by lia. apply firstn_nil.
 Qed.
-(* what does hold: only the sectors up to ceiling_div(data_len, 2048) matter *)
-Theorem bit_csum_partial fp fp' data_len :
-  firstn (2048 * Z.to_nat (ceiling_div data_len 2048)) fp =
-  firstn (2048 * Z.to_nat (ceiling_div data_len 2048)) fp' ->
-  bit_csum fp data_len = bit_csum fp' data_len.
+
+(* Theorem 4: for every file object content and every data_len there is no exception, and the
+   checksum is the sum mod 2^32 of the little-endian 32-bit words of the first data_len bytes of
+   the file from offset 64; when that length is not a multiple of 4 the last word is completed with
+   zero bytes.  Bytes the file object holds beyond data_len are never read. *)
+Theorem bit_csum_exact_prefix fp data_len :
+  bit_csum fp data_len = Some (zsum32 (skipn 64 (firstn (Z.to_nat data_len) fp)) mod M32).
 Proof.
-  rewrite !bit_csum_spec. generalize (Z.to_nat (ceiling_div data_len 2048)). intros n H.
-  f_equal. f_equal. f_equal. f_equal. revert fp fp' H.
-  induction n as [|n IH]; intros fp fp' H; [reflexivity|]. cbn [padded_sectors].
-  assert (H1 : firstn 2048 fp = firstn 2048 fp').
-  { apply (f_equal (firstn 2048)) in H. rewrite !firstn_firstn in H.
-    replace (Nat.min 2048 (2048 * S n)) with 2048%nat in H by lia. exact H. }
-  rewrite H1. f_equal. apply IH.
-  apply (f_equal (skipn 2048)) in H. rewrite !skipn_firstn_comm in H.
-  replace (2048 * S n - 2048)%nat with (2048 * n)%nat in H by lia. exact H.
+  unfold bit_csum. rewrite (sector_loop_spec data_len _ 0 fp 0); try lia.
+  - change (0 =? 0) with true. cbv iota. rewrite zsum32_wsum. replace (data_len - 0 * 2048) with data_len by lia.
+    reflexivity.
+  - replace (data_len - 0 * 2048) with data_len by lia. reflexivity.
+  - unfold M32. lia.
 Qed.
+Corollary bit_csum_exact fp : bit_csum fp (zlen fp) = Some (zsum32 (skipn 64 fp) mod M32).
+Proof. rewrite bit_csum_exact_prefix, to_nat_zlen, firstn_all. reflexivity. Qed.
+(* the former over-read is gone: only the first data_len bytes matter *)
+Corollary bit_csum_prefix_only fp data_len :
+  bit_csum fp data_len = bit_csum (firstn (Z.to_nat data_len) fp) data_len.
+Proof. rewrite !bit_csum_exact_prefix, firstn_firstn, Nat.min_id. reflexivity. Qed.
+Corollary bit_csum_range fp data_len : exists c, bit_csum fp data_len = Some c /\ 0 <= c < M32.
+Proof. eexists. split; [apply bit_csum_exact_prefix|unfold M32; lia]. Qed.
 
 (* ---- real objects ---- *)
 (* body = bytes(range(70)) + b'\x01\x02\x03\x04\x05\x06\x07' (77 bytes); add_eltorito(boot_info_table=True) *)
@@ -242,12 +231,11 @@ Example real_boot_info_table :
     = Some (Some (mk_bit 16 26 77 1263045262)) /\
   bit_parse 16 27 [16; 0; 0; 0; 26; 0; 0; 0; 77; 0; 0; 0; 142; 138; 72; 75] = Some None /\
   bit_parse 16 26 [16; 0; 0] = None /\
-  (* the same file given as a longer fp: the stored checksum differs *)
-  bit_csum (real_body ++ repeat 255 100) 77 = Some 1263045237.
+  (* the same file given as a longer fp: the same checksum (1263045237 before commit ec27ab7) *)
+  bit_csum (real_body ++ repeat 255 100) 77 = Some 1263045262.
 Proof. vm_conj. Qed.
 
 Print Assumptions bit_roundtrip.
-Print Assumptions bit_csum_spec.
+Print Assumptions bit_csum_exact_prefix.
 Print Assumptions bit_csum_exact.
-Print Assumptions bit_csum_overread_refuted.
-Print Assumptions bit_csum_partial.
+Print Assumptions bit_csum_prefix_only.
